@@ -497,6 +497,8 @@ strings_list split_arguments(const char * line)
       p++;
       if (! *p)
         throw_(std::logic_error, _("Invalid use of backslash"));
+      if (q - buf >= 4095)
+        throw_(std::logic_error, _("Argument too long"));
       *q++ = *p;
     }
     else if (in_quoted_string != '"' && *p == '\'') {
@@ -512,6 +514,8 @@ strings_list split_arguments(const char * line)
         in_quoted_string = '"';
     }
     else {
+      if (q - buf >= 4095)
+        throw_(std::logic_error, _("Argument too long"));
       *q++ = *p;
     }
   }
